@@ -576,6 +576,10 @@ func main() {
 	vm := resource_info.NewResourceVectorMap()
 	for i, s := range subjects {
 		s.id = fmt.Sprintf("p%06d", i+1)
+		if i%5 == 4 {
+			// names longer than what generated object names keep of them (config maps derived from the pod's name)
+			s.id += "-of-a-workload-with-a-rather-long-name"
+		}
 		s.pod = buildPod(s.id, s)
 		observeAdmissionAndScheduler(s, adm, vm)
 	}
